@@ -374,6 +374,15 @@ func oracle(c *Case, o *Obs) (string, string) {
 		return "", ""
 	}
 	if rerun && p.Interrupt && !p.Found {
+		// an interrupt is the answer of a run in which nothing has FAILED.  A node (handler, tool call,
+		// branch condition) that failed or panicked beside an interrupting sibling - in the same step, or in
+		// a nested graph running beside it - still fails the run: every task that was started is collected
+		// before the interrupt is answered, so "it completed later" is no excuse.  Reporting the interrupt
+		// instead loses the node's error (errors.Is / errors.As find nothing, no path names the node), and
+		// a resumed run would simply run the failed node again.
+		if len(eager) > 0 {
+			return fmt.Sprintf("swallowed: %s, but the run reports an interrupt and the failure is lost - no node path, nothing for errors.Is / errors.As to find: %s", eager[0].what, p.Msg), "swallowed-by-interrupt"
+		}
 		return "", ""
 	}
 	if pathHit {
